@@ -61,7 +61,7 @@ def main():
     codec.run_value_cases(chk, cases, jobs, "gen", expr(cases, jobs), on_bad)
     # ---- C++ vector encoders: encode<little>(), encode<big>(), encode() [native] of the same object
     quick = chk.tier == "quick"
-    ccases, cjobs, pyres, records, tail_ok, errors = C.canonical_ops(chk, 60 if quick else 1500, 12 if quick else 2,
+    ccases, cjobs, pyres, records, tail_ok, errors = C.canonical_ops(chk, 60 if quick else 500, 12 if quick else 3,
                                                                       2 if quick else 3, rng, k=2)
     C.report_build_errors(chk, ccases, errors)
     entries = []
